@@ -310,7 +310,11 @@ type epoch struct {
 }
 
 type location struct {
-	name  string
+	name string
+	// pin keeps the accessed object alive (and, because the pointer escapes here, on the heap) until
+	// the execution's location table is dropped: an address is never reused for another object
+	// within one execution, so two events on one key are two accesses of one object
+	pin   unsafe.Pointer
 	write *epoch
 	reads map[int]epoch
 }
@@ -329,7 +333,7 @@ func Access(p unsafe.Pointer, write bool, site string) {
 	}
 	l := s.locs[uintptr(p)]
 	if l == nil {
-		l = &location{name: site, reads: map[int]epoch{}}
+		l = &location{name: site, reads: map[int]epoch{}, pin: p}
 		s.locs[uintptr(p)] = l
 	}
 	me := epoch{t.id, t.vc[t.id], site}
